@@ -175,8 +175,8 @@ def validate_codes(version, node, value):
     from hed.models import HedString
     sch = hedenv.schema(version)
     text = tag_text(node, value)
-    if node.short.casefold() in WRAP:
-        text = f"({text}, (Sensory-event))"
+    if node.short.casefold() in WRAP and "topLevelTagGroup" in node.attrs:
+        text = f"({text}, (Sensory-event))"      # where the schema wants the tag in a top-level group, give it one
     issues = HedString(text, sch).validate(allow_placeholders=False)
     errs = sorted({i["code"] for i in issues if i["severity"] == 1})
     warns = sorted({i["code"] for i in issues if i["severity"] != 1})
